@@ -658,7 +658,10 @@ Definition tcp_process_ack_len (s : socket) (r : tcp_repr) : outcome (Z * bool *
 (* l.1862-1875 *)
 Definition tcp_process_quash (s : socket) (r : tcp_repr) : control :=
   let control := quash_psh (r_control r) in
-  if control_eqb control CFin && seq_lt (tcp_window_start s) (r_seq_number r) then CNone else control.
+  let segment_end := seq_add (r_seq_number r) (l_len (r_payload r)) in
+  if control_eqb control CFin
+     && (seq_lt (tcp_window_start s) (r_seq_number r) || seq_lt (tcp_window_end s) segment_end)
+  then CNone else control.
 
 Definition tcp_apply_mss (s : socket) (r : tcp_repr) : socket :=
   match r_max_seg_size r with
@@ -780,7 +783,8 @@ Definition tcp_process_dup_ack (cx : ctx) (s : socket) (r : tcp_repr) (ack_len :
         (if is_dup then
            let n := Z.min 255 (s_local_rx_dup_acks s + 1) in
            let s := upd_local_rx_dup_acks s n in
-           let s := if n =? 3 then upd_timer s TFastRetransmit else s in
+           let s := if (n =? 3) && negb (rb_is_empty (s_tx_buffer s))
+                    then upd_timer s TFastRetransmit else s in
            do in_flight <- tcp_flight_size s;
            Ok (upd_congestion_controller s (cc_on_dup_ack (s_congestion_controller s) (s_remote_mss s)),
                if n =? 3 then 172 else 171)
@@ -812,7 +816,7 @@ Definition tcp_process_timers (cx : ctx) (s : socket) (ack_len : Z) (ack_all : b
   | _ => (s, 184)
   end.
 
-(* l.2191-2203.  Tags 185-187. *)
+(* l.2191-2216.  Tags 185-188. *)
 Definition tcp_process_zwp (cx : ctx) (s : socket) (ack_len : Z) : socket * Z :=
   let '(s, tg) :=
     if (s_remote_win_len s =? 0) && negb (rb_is_empty (s_tx_buffer s))
@@ -821,7 +825,12 @@ Definition tcp_process_zwp (cx : ctx) (s : socket) (ack_len : Z) : socket * Z :=
                          (rtte_retransmission_timeout (s_rtte s))), 186)
     else (s, 185) in
   if negb (s_remote_win_len s =? 0) && timer_is_zero_window_probe (s_timer s)
-  then (upd_timer s (timer_set_for_idle (cx_now cx) (s_keep_alive s)), 187)
+  then
+    let s := upd_timer s (timer_set_for_idle (cx_now cx) (s_keep_alive s)) in
+    if negb (s_remote_last_seq s =? s_local_seq_no s)
+    then (upd_timer s (timer_set_for_retransmit (s_timer s) (cx_now cx)
+                                                (rtte_retransmission_timeout (s_rtte s))), 188)
+    else (s, 187)
   else (s, tg).
 
 (* l.2291, l.2374-2406 *)
@@ -938,7 +947,8 @@ Definition tcp_local_mss (cx : ctx) : outcome Z :=
 
 (* l.2298 *)
 Definition tcp_seq_to_transmit (cx : ctx) (s : socket) : outcome bool :=
-  if s_pending_fast_retransmit s && negb (rb_is_empty (s_tx_buffer s)) then Ok true else
+  if s_pending_fast_retransmit s && negb (rb_is_empty (s_tx_buffer s)) && (s_remote_win_len s >? 0)
+  then Ok true else
   match s_tuple s with
   | None => Panic                                                       (* unwrap() *)
   | Some _ =>
@@ -988,6 +998,12 @@ Definition tcp_dispatch_timers (cx : ctx) (s : socket) : outcome (socket * Z) :=
           (upd_pending_fast_retransmit s true, 203)
       end in
     let s := upd_timer s (timer_set_for_idle now (s_keep_alive s)) in
+    let rto := rtte_retransmission_timeout (s_rtte s) in
+    let s := if s_pending_fast_retransmit s
+             then upd_timer s (timer_set_for_retransmit (s_timer s) now rto)
+             else if (s_remote_win_len s =? 0) && negb (rb_is_empty (s_tx_buffer s))
+             then upd_timer s (timer_set_for_zero_window_probe now rto)
+             else s in
     Ok (upd_rtte s (rtte_on_retransmit (s_rtte s)), tg)
   else Ok (s, 200).
 
@@ -1035,8 +1051,8 @@ Definition tcp_dispatch_build (cx : ctx) (s : socket) (t : tuple)
         do local_mss <- tcp_local_mss cx;
         let effective_mss := sat_sub (Z.min local_mss (s_remote_mss s)) options_len in
         do r1 <-
-          (if s_pending_fast_retransmit s then
-             let size := Z.min effective_mss (rb_len (s_tx_buffer s)) in
+          (if s_pending_fast_retransmit s && (s_remote_win_len s >? 0) then
+             let size := Z.min (Z.min effective_mss (rb_len (s_tx_buffer s))) (s_remote_win_len s) in
              let repr := repr_set_seq repr (s_local_seq_no s) in
              let repr := repr_set_payload repr (rb_get_allocated (s_tx_buffer s) 0 size) in
              Ok (upd_pending_fast_retransmit s false, repr, 0, false, 224)
@@ -1177,6 +1193,8 @@ Definition wire_clamp_wscale (o : option Z) : option Z :=
 
 Definition iface_tcp_ingress (cx : ctx) (s : socket) (ip : ip_repr) (r : tcp_repr)
   : outcome (socket * option packet * list Z) :=
+  (* the broadcast / multicast / foreign-loopback destination filter of process_tcp is not
+     represented: in this model every segment is addressed to the interface address *)
   if (ip_src ip =? 0) || (ip_dst ip =? 0) then Ok (s, None, [300]) else
   if (r_src_port r =? 0) || (r_dst_port r =? 0) then Ok (s, None, [301]) else
   if tcp_accepts s ip r then tcp_process cx s ip r
